@@ -177,12 +177,12 @@ class VC:
                 if isinstance(base, Slice):
                     L = base.hi - base.lo
                     hi = self.ev(e.slice.upper, st) if e.slice.upper is not None else L
-                    self.prove(f"slice lower bound >= 0 at line {e.lineno}", st.assm, lo >= 0)
+                    self.prove(f"slice lower bound >= 0 in {ast.unparse(e)}", st.assm, lo >= 0)
                     return Slice(base.base, base.lo + zmin(lo, L), base.lo + zmin(hi, L), base.length)
                 # slicing an opaque array X[j:j+b]: positions of range(len)
                 L = self.length_of(base, st)
                 hi = self.ev(e.slice.upper, st) if e.slice.upper is not None else L
-                self.prove(f"slice lower bound >= 0 at line {e.lineno}", st.assm, lo >= 0)
+                self.prove(f"slice lower bound >= 0 in {ast.unparse(e)}", st.assm, lo >= 0)
                 return Opaque("gather", base, Slice("range", zmin(lo, L), zmin(hi, L), L))
             if isinstance(e.slice, ast.Tuple):
                 elts = e.slice.elts
